@@ -100,6 +100,20 @@ func main() {
 	env.Main.Add(wide)
 	roots = append(roots, &root{name: "Wide", s: wide})
 	roots = append(roots, &root{name: "U", s: env.U}, &root{name: "X", s: env.X}, &root{name: "Inner", s: env.Inner})
+	// field ids in every spelling the grammar allows: the wire carries the decimal value
+	spelled := &idl.Struct{Cat: "struct", Name: "SpelledIds", Fields: []*idl.Field{
+		{ID: 10, ExplicitID: true, IDText: "010", Name: "ten", Type: i32}, {ID: 17, ExplicitID: true, IDText: "0017", Name: "seventeen", Type: idl.T(idl.String), Req: idl.ReqOptional},
+		{ID: 8, ExplicitID: true, IDText: "08", Name: "eight", Type: i32, Req: idl.ReqRequired}, {Name: "nine", Type: i32}, {ID: 32, ExplicitID: true, IDText: "0x20", Name: "hex", Type: i32},
+		{ID: 64, ExplicitID: true, IDText: "0o100", Name: "oct", Type: i32}, {ID: -10, ExplicitID: true, IDText: "-010", Name: "negten", Type: i32, Req: idl.ReqOptional}}}
+	env.Main.Add(spelled)
+	roots = append(roots, &root{name: "SpelledIds", s: spelled})
+	// struct-typed fields of every requiredness whose pointer is nil or set
+	nilst := &idl.Struct{Cat: "struct", Name: "NilStructs", Fields: []*idl.Field{
+		{ID: 1, ExplicitID: true, Name: "d", Type: idl.StructT(env.Inner)}, {ID: 2, ExplicitID: true, Name: "r", Type: idl.StructT(env.Inner), Req: idl.ReqRequired},
+		{ID: 3, ExplicitID: true, Name: "o", Type: idl.StructT(env.Inner), Req: idl.ReqOptional}, {ID: 4, ExplicitID: true, Name: "u", Type: idl.StructT(env.U)}, {ID: 5, ExplicitID: true, Name: "x", Type: idl.StructT(env.X), Req: idl.ReqRequired},
+		{ID: 6, ExplicitID: true, Name: "tail", Type: i32}}}
+	env.Main.Add(nilst)
+	roots = append(roots, &root{name: "NilStructs", s: nilst})
 	// recursive type through optional fields
 	node := &idl.Struct{Cat: "struct", Name: "Node", Fields: []*idl.Field{{ID: 1, ExplicitID: true, Name: "v", Type: i32}}}
 	node.Fields = append(node.Fields, &idl.Field{ID: 2, ExplicitID: true, Name: "next", Type: idl.StructT(node), Req: idl.ReqOptional}, &idl.Field{ID: 3, ExplicitID: true, Name: "kids", Type: idl.ListOf(idl.StructT(node)), Req: idl.ReqOptional})
